@@ -1507,7 +1507,11 @@ class Models:
             j = fresh(INT, "qj")
             frame = {"__closure__": st1.frames[-1], names[0]: V(dom.kind.elem, dom.kind.at(dom.term, j.term))}
             st1.frames.append(frame)
-            body = eng.ev_merged(lam.body, st1, want_bool=True)
+            eng.bound_stack.append((j.term, z3.And(j.term >= 0, j.term < dom.kind.len(dom.term))))
+            try:
+                body = eng.ev_merged(lam.body, st1, want_bool=True)
+            finally:
+                eng.bound_stack.pop()
             st1.frames.pop()
             guard = z3.And(j.term >= 0, j.term < dom.kind.len(dom.term))
             if is_forall:
@@ -1527,7 +1531,13 @@ class Models:
         for n, b in zip(names, bound):
             frame[n] = b
         st1.frames.append(frame)
-        body = eng.ev_merged(lam.body, st1, want_bool=True)
+        for b in bound:
+            eng.bound_stack.append((b.term, guard))
+        try:
+            body = eng.ev_merged(lam.body, st1, want_bool=True)
+        finally:
+            for b in bound:
+                eng.bound_stack.pop()
         st1.frames.pop()
         vars_ = [b.term for b in bound]
         if is_forall:
